@@ -12,7 +12,7 @@ import (
 
 func init() {
 	register(&Prop{ID: "C06", Run: runC06, MinNontrivial: 500,
-		Rule:        "cases = IdP-signed responses whose first assertion carries 0-4 AudienceRestrictions x 0-4 Audiences each drawn from {exact, case variant, trailing slash, space-padded, prefix, unrelated, empty}, OneTimeUse present/absent, ProxyRestriction absent or Count in {absent,0,1,7,2^31-1} x 0-3 audiences; configured audience in {URI, URI/, \"\"}; later assertions carry opposite conditions to show only the first counts; oracle: NotInAudience iff some restriction has no Audience byte-equal to the configured URI, OneTimeUse iff the element is present, ProxyRestriction summary equals the signed Count and Audience list or is nil; non-trivial = accepted and summarised; distinct by the conditions tuple; configured audiences containing list/pattern/URL metacharacters with Audiences that are pieces, supersets or decoded forms of them; first assertions without an AuthnStatement; Audiences near the configured value (percent-encoded, entity-escaped, ...) or equal to another configured field; foreign-namespace Audience look-alikes; a second Conditions element",
+		Rule:        "cases = IdP-signed responses whose first assertion carries 0-4 AudienceRestrictions x 0-4 Audiences each drawn from {exact, case variant, trailing slash, space-padded, prefix, unrelated, empty}, OneTimeUse present/absent, ProxyRestriction absent or Count in {absent,0,1,7,2^31-1} x 0-3 audiences; configured audience in {URI, URI/, \"\"}; later assertions carry opposite conditions to show only the first counts; oracle: NotInAudience iff some restriction has no Audience byte-equal to the configured URI, OneTimeUse iff the element is present, ProxyRestriction summary equals the signed Count and Audience list or is nil; non-trivial = accepted and summarised; distinct by the conditions tuple; configured audiences containing list/pattern/URL metacharacters with Audiences that are pieces, supersets or decoded forms of them; first assertions without an AuthnStatement; Audiences near the configured value (percent-encoded, entity-escaped, ...) or equal to another configured field; foreign-namespace Audience look-alikes; a second Conditions element; Audience values interrupted by a processing instruction; empty or inverted Conditions windows",
 		Assumptions: []string{"comparison is byte equality on the decoded text", "the warning is about the first assertion only (as the property states)"}})
 }
 
